@@ -61,7 +61,8 @@ def run(ctx):
                 "upper- and lower-case fields, unions with/without payload, records and tuples containing unions containing slices, "
                 "slices (length <= 2, thorough: <= 3) of ints/strings/records/tuples/slices; every slice in each library-produced representation incl. views of "
                 "the other operand's array), a = b, a <> b and b = a evaluated by the real frt on Go types emitted by fc; "
-                "distinct = distinct (type, a, b, shared); non-trivial = not both scalars")
+                "distinct = distinct (type, a, b, shared); non-trivial = not both scalars.  Plus end to end: 288 Folang programs (8 types x equal / unequal x "
+                "= / <> x operands written as literal / variable / call result on either side) transpiled by fc, run, validated against FoSem")
     lines, bad = run_pairs(ctx, types=ALL_TYPES)
     for i, t in enumerate(lines):
         ctx.case([t["ty"], t["a"], t["b"], t["shared"]], nontrivial=not (scalar(t["a"]) and scalar(t["b"])),
@@ -74,11 +75,33 @@ def run(ctx):
         ctx.violation("= / <> on %s: a=%s b=%s shared=%s -> eq=%s neq=%s eqrev=%s panic=%s" % (
             t["ty"], json.dumps(t["a"]), json.dumps(t["b"]), t["shared"], t["eq"], t["neq"], t["eqrev"], t["panic"][:200]),
             {"pair": {k: t[k] for k in ("ty", "a", "b", "shared")}, "recorded": t})
+    # (ii) end to end: Folang programs computing a = b / a <> b with the operands written as literals, variables and call results on either
+    # side, transpiled by the real fc and run; the recorded traces are validated against FoSem (structural equality, strict, left first)
+    from checks import c01
+    from vlib import fogen
+    progs = fogen.eq_kernels(1)
+    texts, observed, pbad = c01.run_programs(ctx, progs)
+    for p in progs:
+        ctx.case(["e2e", fogen.to_spec(p)], nontrivial=True)
+    ctx.extra["end_to_end_programs"] = len(progs)
+    for idx, pos, exp in pbad[:20]:
+        p = progs[idx]
+        o = observed[p["id"]]
+        got = o["events"][pos - 1] if pos <= len(o["events"]) else ["<end>", o["status"] + " " + o["result"]]
+        ctx.violation("program p%d: at event %d the emitted program did %s, the semantics prescribes %s\n%s" % (
+            p["id"], pos, json.dumps(got), exp, texts[idx][texts[idx].find("let p%dmain" % p["id"]):]),
+            {"program": p, "text": texts[idx], "observed": o, "position": pos, "kind": "e2e"})
     ctx.assumptions += ["StructEq of FoEq.tla is structural equality (checked by TLC to be an equivalence that ignores representations)",
                         "values are decoded into the Go types fc emits for harness/drv_eq/eqtypes.fo; generic OpEqual is called at the static type"]
 
 
 def replay(ctx, rep):
+    if rep.get("kind") == "e2e":
+        from checks import c01
+        texts, observed, pbad = c01.run_programs(ctx, [rep["program"]])
+        for idx, pos, exp in pbad:
+            ctx.violation("program still behaves differently from the semantics", {"program": rep["program"], "kind": "e2e"})
+        return
     lines, bad = run_pairs(ctx, pairs=[rep["pair"]])
     for b in bad:
         ctx.violation("= / <> wrong on replayed pair", {"pair": rep["pair"], "recorded": lines[b - 1]})
